@@ -400,8 +400,14 @@ func c06Exec(x *explore.Exec, sc c06Scenario) (bool, string, string, string) {
 				found++
 			}
 		}
-		if found != 1 {
-			return false, "C06/lost-or-duplicated-extension", fmt.Sprintf("scenario %s schedule %v: after all calls returned, extension %s occurs %d times in the tree", desc, x.Choices, c06Exts[e.op.arg].name, found), ""
+		expect := 0
+		for _, e2 := range exts {
+			if e2.op.arg == e.op.arg {
+				expect++
+			}
+		}
+		if found != expect {
+			return false, "C06/lost-or-duplicated-extension", fmt.Sprintf("scenario %s schedule %v: after all calls returned, extension %s occurs %d times in the tree (registered %d times)", desc, x.Choices, c06Exts[e.op.arg].name, found, expect), ""
 		}
 	}
 	// children order under each parent = reverse lock order
